@@ -2,7 +2,7 @@
    string the id equals what LanguageIdentifier parses from the part BEFORE THE FIRST SINGLETON subtag.
    `split_single toks` (LocaleSpecProofs) cuts a token list at its first one-character token. *)
 From UL Require Import Bytes Subtags LangId Ext Grammar LangIdSpec LocaleInv AbstractLocale LocaleSpec
-                       BytesProofs SplitProofs LangIdProofs CanonProofs ExtProofs RoundTrip LocaleSpecProofs StringLevel.
+                       BytesProofs SplitProofs LangIdProofs CanonProofs ExtProofs RoundTrip LocaleSpecProofs StringLevel Prefix.
 From Coq Require Import Lia ZifyBool ZifyN.
 Open Scope N_scope.
 Arguments N.eqb : simpl never.
@@ -130,3 +130,14 @@ Theorem locale_id_before_singleton_accepted s l rem :
 Proof.
   intros _ Hp HR. exact (proj2 (prefix_before_singleton (split s) (loc_id l) rem (split_nonempty s) Hp HR)).
 Qed.
+
+(* the executable form used by the oracle *)
+Lemma before_single_split toks : before_single toks = fst (split_single toks).
+Proof.
+  induction toks as [|t r IH]; [reflexivity|]. cbn [before_single split_single]. destruct (is_single t); [reflexivity|].
+  rewrite IH. destruct (split_single r); reflexivity.
+Qed.
+Theorem locale_id_before_single s v :
+  spec_locale_zone (split s) = MustAccept v ->
+  locale_from_bytes s = Ok v /\ langid_from_bytes (join (before_single (split s))) = Ok (loc_id v).
+Proof. rewrite before_single_split. apply locale_id_before_singleton. Qed.
